@@ -53,32 +53,243 @@ structure EmptyLeaf (s : RS) : Prop where
   addl : s.addl ≠ some false
   props : s.props = []
   items : s.items = none
+  nt : s.nt = none
+  oneOf : s.oneOf = []
+  anyOf : s.anyOf = []
+  allOf : s.allOf = []
 
 theorem emptyLeaf_of (s : RS) (h : isEmptyLeaf s = true) : EmptyLeaf s := by
   unfold isEmptyLeaf at h
   simp only [Bool.and_eq_true, Bool.not_eq_true', Option.isNone_iff_eq_none, List.isEmpty_iff,
     beq_iff_eq, bne_iff_ne, ne_eq] at h
-  obtain ⟨⟨⟨⟨⟨⟨⟨⟨⟨h1, h2⟩, _⟩, _⟩, h5⟩, h6⟩, h7⟩, h8⟩, h9⟩, h10⟩ := h
-  exact ⟨h1, h2, h5, h6, h7, h8, h9, h10⟩
+  obtain ⟨⟨⟨⟨⟨⟨⟨⟨⟨⟨⟨⟨⟨h1, h2⟩, _⟩, _⟩, h5⟩, h6⟩, h7⟩, h8⟩, h9⟩, h10⟩, h11⟩, h12⟩, h13⟩, h14⟩ := h
+  exact ⟨h1, h2, h5, h6, h7, h8, h9, h10, h11, h12, h13, h14⟩
 
-theorem satFields_of_emptyLeaf (exro : Bool) (s : RS) (e : EmptyLeaf s) (kvs : List (Str × V)) :
-    SatFields exro s kvs := by
-  induction kvs with
-  | nil => simp [SatFields]
+/-! ### induction over a schema and its composition members -/
+
+theorem rs_induct (P : RS → Prop)
+    (h : ∀ t n r w ml mx props req a items nt oneOf anyOf allOf,
+      (∀ x, nt = some x → P x) → (∀ x ∈ oneOf, P x) → (∀ x ∈ anyOf, P x) → (∀ x ∈ allOf, P x) →
+      P (RS.mk t n r w ml mx props req a items nt oneOf anyOf allOf)) : ∀ s, P s := by
+  have key := cdepth.mutual_induct (motive_1 := P) (motive_2 := fun l => ∀ x ∈ l, P x)
+    (motive_3 := fun o => ∀ x, o = some x → P x)
+  refine (key ?_ ?_ ?_ ?_ ?_).1
+  · intro t n r w ml mx props req a items nt oneOf anyOf allOf h1 h2 h3 h4
+    exact h t n r w ml mx props req a items nt oneOf anyOf allOf h1 h2 h3 h4
+  · intro x hx; cases hx
+  · intro n hn x hx; cases hx; exact hn
+  · intro x hx; cases hx
+  · intro x r hx hr y hy
+    rcases List.mem_cons.mp hy with rfl | hy
+    · exact hx
+    · exact hr y hy
+
+/-! ### the executable clauses decide the declarative ones -/
+
+section satC
+variable (isNull : Bool) (own : RS → Bool) (Own : RS → Prop)
+
+theorem satCountB_spec (l : List RS) (h : ∀ x ∈ l, (satCB isNull own x = true ↔ SatC isNull Own x)) :
+    (satCountB isNull own l = 0 ↔ SatNone isNull Own l) ∧ (satCountB isNull own l = 1 ↔ SatOne isNull Own l) := by
+  induction l with
+  | nil => simp [satCountB, SatNone, SatOne]
   | cons x r ih =>
-    obtain ⟨k, v⟩ := x
-    rw [SatFields]
-    refine ⟨?_, ih⟩
-    simp only [e.props, lookup]
-    exact e.addl
+    have hx := h x (by simp)
+    have ihr := ih (fun y hy => h y (by simp [hy]))
+    unfold satCountB SatNone SatOne
+    cases hc : satCB isNull own x with
+    | true =>
+      have hs : SatC isNull Own x := hx.mp hc
+      simp only [if_true]
+      constructor
+      · constructor
+        · intro h0; omega
+        · intro h0; exact absurd hs h0.1
+      · constructor
+        · intro h1; exact Or.inl ⟨hs, ihr.1.mp (by omega)⟩
+        · rintro (⟨_, h0⟩ | ⟨hn, _⟩)
+          · have := ihr.1.mpr h0; omega
+          · exact absurd hs hn
+    | false =>
+      have hs : ¬ SatC isNull Own x := by intro h0; have := hx.mpr h0; simp [hc] at this
+      simp only [Bool.false_eq_true, if_false, Nat.zero_add]
+      constructor
+      · constructor
+        · intro h0; exact ⟨hs, ihr.1.mp h0⟩
+        · intro h0; exact ihr.1.mpr h0.2
+      · constructor
+        · intro h1; exact Or.inr ⟨hs, ihr.2.mp h1⟩
+        · rintro (⟨h0, _⟩ | ⟨_, h1⟩)
+          · exact absurd h0 hs
+          · exact ihr.2.mpr h1
 
-theorem roLoopOK_iff (exro : Bool) (s : RS) (kvs : List (Str × V)) :
-    roLoopOK exro s.props kvs = true ↔ (exro = false → ∀ k, isRO (lookup k s.props) = true → k ∉ keys kvs) := by
+theorem satAnyB_spec (l : List RS) (h : ∀ x ∈ l, (satCB isNull own x = true ↔ SatC isNull Own x)) :
+    satAnyB isNull own l = true ↔ SatAny isNull Own l := by
+  induction l with
+  | nil => simp [satAnyB, SatAny]
+  | cons x r ih =>
+    unfold satAnyB SatAny
+    rw [Bool.or_eq_true, h x (by simp), ih (fun y hy => h y (by simp [hy]))]
+
+theorem satAllB_spec (l : List RS) (h : ∀ x ∈ l, (satCB isNull own x = true ↔ SatC isNull Own x)) :
+    satAllB isNull own l = true ↔ SatAll isNull Own l := by
+  induction l with
+  | nil => simp [satAllB, SatAll]
+  | cons x r ih =>
+    unfold satAllB SatAll
+    rw [Bool.and_eq_true, h x (by simp), ih (fun y hy => h y (by simp [hy]))]
+
+theorem satCB_iff (h : ∀ s, own s = true ↔ Own s) : ∀ s, satCB isNull own s = true ↔ SatC isNull Own s := by
+  apply rs_induct
+  intro t n r w ml mx props req a items nt oneOf anyOf allOf hnt h1 h2 h3
+  have hnot : satNotB isNull own nt = true ↔ SatNot isNull Own nt := by
+    cases nt with
+    | none => simp [satNotB, SatNot]
+    | some x =>
+      unfold satNotB SatNot
+      rw [← hnt x rfl]
+      cases satCB isNull own x <;> simp
+  have hone : (oneOf.isEmpty || satCountB isNull own oneOf == 1) = true ↔ (oneOf = [] ∨ SatOne isNull Own oneOf) := by
+    rw [Bool.or_eq_true, List.isEmpty_iff, beq_iff_eq, (satCountB_spec isNull own Own oneOf h1).2]
+  have hany : (anyOf.isEmpty || satAnyB isNull own anyOf) = true ↔ (anyOf = [] ∨ SatAny isNull Own anyOf) := by
+    rw [Bool.or_eq_true, List.isEmpty_iff, satAnyB_spec isNull own Own anyOf h2]
+  have hall := satAllB_spec isNull own Own allOf h3
+  unfold satCB SatC
+  cases isNull with
+  | true =>
+    simp only [if_true, Bool.or_eq_true, Bool.and_eq_true, hnot, hone, hany, hall, Bool.not_eq_true',
+      Bool.and_eq_false_iff, List.isEmpty_eq_false_iff]
+    constructor
+    · rintro (h0 | ⟨⟨⟨⟨h4, h5⟩, h6⟩, h7⟩, h8⟩)
+      · exact Or.inl h0
+      · refine Or.inr ⟨?_, h5, h6, h7, h8⟩
+        rcases h4 with (h4 | h4) | h4
+        · exact Or.inl h4
+        · exact Or.inr (Or.inl h4)
+        · exact Or.inr (Or.inr h4)
+    · rintro (h0 | ⟨h4, h5, h6, h7, h8⟩)
+      · exact Or.inl h0
+      · refine Or.inr ⟨⟨⟨⟨?_, h5⟩, h6⟩, h7⟩, h8⟩
+        rcases h4 with h4 | h4 | h4
+        · exact Or.inl (Or.inl h4)
+        · exact Or.inl (Or.inr h4)
+        · exact Or.inr h4
+  | false =>
+    simp only [Bool.false_eq_true, if_false, Bool.and_eq_true, hnot, hone, hany, hall, h]
+    constructor
+    · rintro ⟨⟨⟨⟨h5, h6⟩, h7⟩, h8⟩, h9⟩; exact ⟨h5, h6, h7, h8, h9⟩
+    · rintro ⟨h5, h6, h7, h8, h9⟩; exact ⟨⟨⟨⟨h5, h6⟩, h7⟩, h8⟩, h9⟩
+
+end satC
+
+/-! ### the code's control flow (null pre-check, shortcut for empty schemas, null after a composition) computes
+the same verdict as the clause-by-clause twin -/
+
+theorem comp_eq_satCB (isNull : Bool) (own own' : RS → Bool)
+    (hown : isNull = false → ∀ s, own s = own' s)
+    (hE : isNull = false → ∀ s, isEmptyLeaf s = true → own s = true)
+    (hN : isNull = true → ∀ s, own s = s.nullable) :
+    ∀ s, comp isNull own s = satCB isNull own' s := by
+  apply rs_induct
+  intro t n r w ml mx props req a items nt oneOf anyOf allOf hnt h1 h2 h3
+  have hnot : compNot isNull own nt = satNotB isNull own' nt := by
+    cases nt with
+    | none => rfl
+    | some x => unfold compNot satNotB; rw [hnt x rfl]
+  have hcount : ∀ l : List RS, (∀ x ∈ l, comp isNull own x = satCB isNull own' x) →
+      compCount isNull own l = satCountB isNull own' l ∧ compAny isNull own l = satAnyB isNull own' l ∧
+      compAll isNull own l = satAllB isNull own' l := by
+    intro l hl
+    induction l with
+    | nil => exact ⟨rfl, rfl, rfl⟩
+    | cons x r ih =>
+      have ihr := ih (fun y hy => hl y (by simp [hy]))
+      unfold compCount satCountB compAny satAnyB compAll satAllB
+      rw [hl x (by simp), ihr.1, ihr.2.1, ihr.2.2]
+      exact ⟨rfl, rfl, rfl⟩
+  have c1 := hcount oneOf h1
+  have c2 := hcount anyOf h2
+  have c3 := hcount allOf h3
+  unfold comp satCB
+  rw [hnot, c1.1, c2.2.1, c3.2.2]
+  cases hnull : isNull with
+  | true =>
+    have hNs := hN hnull (RS.mk t n r w ml mx props req a items nt oneOf anyOf allOf)
+    simp only [RS.nullable] at hNs
+    cases hn : n with
+    | true => simp
+    | false =>
+      simp only [Bool.true_and, Bool.false_eq_true, if_false, if_true, Bool.false_or]
+      cases he : isEmptyLeaf (RS.mk t false r w ml mx props req a items nt oneOf anyOf allOf) with
+      | true =>
+        have e := emptyLeaf_of _ he
+        have e1 := e.oneOf; have e2 := e.anyOf; have e3 := e.allOf
+        simp only [RS.oneOf, RS.anyOf, RS.allOf] at e1 e2 e3
+        subst e1 e2 e3
+        simp
+      | false =>
+        simp only [Bool.false_eq_true, if_false]
+        rw [hn] at hNs
+        cases hc : (oneOf.isEmpty && anyOf.isEmpty && allOf.isEmpty) with
+        | true => simp [hNs]
+        | false =>
+          simp
+  | false =>
+    simp only [Bool.false_and, Bool.false_eq_true, if_false, Bool.not_false]
+    rw [← hown hnull]
+    cases he : isEmptyLeaf (RS.mk t n r w ml mx props req a items nt oneOf anyOf allOf) with
+    | true =>
+      have e := emptyLeaf_of _ he
+      have e0 := e.nt; have e1 := e.oneOf; have e2 := e.anyOf; have e3 := e.allOf
+      simp only [RS.nt, RS.oneOf, RS.anyOf, RS.allOf] at e0 e1 e2 e3
+      subst e0 e1 e2 e3
+      have := hE hnull _ he
+      simp [this, satNotB, satAllB]
+    | false => simp
+
+/-! ### own keywords: executable vs declarative -/
+
+theorem ownBool_iff (s : RS) : ownBool s = true ↔ OwnBool s := by
+  simp [ownBool, OwnBool, permits_iff]
+
+theorem ownInt_iff (n : Int) (s : RS) : ownInt n s = true ↔ OwnInt n s := by
+  unfold ownInt OwnInt
+  rw [Bool.and_eq_true]
+  apply and_congr
+  · cases s.ty with
+    | none => simp [numTypeOK, permits]
+    | some t => cases t <;> simp [numTypeOK, permits]
+  · cases s.max with
+    | none => simp [maxOK]
+    | some m => simp [maxOK]
+
+theorem ownHalf_iff (n : Int) (s : RS) : ownHalf n s = true ↔ OwnHalf n s := by
+  unfold ownHalf OwnHalf
+  rw [Bool.and_eq_true]
+  apply and_congr
+  · cases s.ty with
+    | none => simp [numTypeOK, permits]
+    | some t => cases t <;> simp [numTypeOK, permits]
+  · cases s.max with
+    | none => simp [maxOK]
+    | some m => simp [maxOK]
+
+theorem ownStr_iff (t : Str) (s : RS) : ownStr t s = true ↔ OwnStr t s := by
+  unfold ownStr OwnStr
+  simp only [Bool.and_eq_true, permits_iff, Bool.or_eq_true, beq_iff_eq, decide_eq_true_eq]
+  apply and_congr Iff.rfl
+  constructor
+  · rintro (h | h)
+    · omega
+    · exact h
+  · intro h; exact Or.inr h
+
+theorem roLoopOK_iff (exro : Bool) (s : RS) (ks : List Str) :
+    roLoopOK exro s.props ks = true ↔ (exro = false → ∀ k, isRO (lookup k s.props) = true → k ∉ ks) := by
   unfold roLoopOK
-  simp only [List.all_eq_true, Bool.or_eq_true, Bool.not_eq_true', Bool.and_eq_false_iff]
+  simp only [List.all_eq_true, Bool.or_eq_true, Bool.not_eq_true', Bool.and_eq_false_iff, List.contains_iff_mem]
   constructor
   · intro hall hx k hro hk
-    obtain ⟨v, hv⟩ := lookup_isSome_of_mem_keys k kvs hk
     have hkp : k ∈ keys s.props := by
       cases hl : lookup k s.props with
       | none => simp [hl, isRO] at hro
@@ -86,22 +297,39 @@ theorem roLoopOK_iff (exro : Bool) (s : RS) (kvs : List (Str × V)) :
     rcases hall k hkp with (h1 | h1) | h1
     · simp [hro] at h1
     · simp [hx] at h1
-    · simp [hv] at h1
+    · simp [hk] at h1
   · intro hs k _
     cases hro : isRO (lookup k s.props) with
     | false => simp
     | true =>
       cases hx : exro with
       | true => simp
-      | false =>
-        right
-        rw [lookup_none_of_not_mem_keys k kvs (hs hx k hro)]
-        rfl
+      | false => right; simpa using hs hx k hro
 
-theorem requiredOK_iff (s : RS) (kvs : List (Str × V)) :
-    requiredOK s kvs = true ↔ ∀ k ∈ s.required, k ∈ keys kvs ∨ isRO (lookup k s.props) = true := by
+theorem requiredOK_iff (s : RS) (ks : List Str) :
+    requiredOK s ks = true ↔ ∀ k ∈ s.required, k ∈ ks ∨ isRO (lookup k s.props) = true := by
   unfold requiredOK
   simp [List.all_eq_true]
+
+/-- an empty schema accepts every non-null value through the general path too -/
+theorem own_of_emptyLeaf (s : RS) (h : isEmptyLeaf s = true) :
+    ownBool s = true ∧ (∀ n, ownInt n s = true) ∧ (∀ n, ownHalf n s = true) ∧ (∀ t, ownStr t s = true) ∧
+    (∀ fs, ownArr fs s = true) ∧ (∀ exro fs, ownObj exro fs s = true) := by
+  have e := emptyLeaf_of s h
+  refine ⟨?_, ?_, ?_, ?_, ?_, ?_⟩
+  · simp [ownBool, e.ty, permits]
+  · intro n; simp [ownInt, e.ty, e.max, permits, numTypeOK, maxOK]
+  · intro n; simp [ownHalf, e.ty, e.max, permits, numTypeOK, maxOK]
+  · intro t; simp [ownStr, e.ty, e.minLen, permits]
+  · intro fs; simp [ownArr, e.ty, e.items, permits]
+  · intro exro fs
+    have hf : fieldsOK s fs = true := by
+      unfold fieldsOK
+      apply List.all_eq_true.mpr
+      intro kf _
+      simp only [e.props, lookup, bne_iff_ne, ne_eq]
+      exact e.addl
+    simp [ownObj, e.ty, e.props, e.required, permits, roLoopOK, keys, requiredOK, hf]
 
 /-! ### writeOnly plays no role -/
 
@@ -132,43 +360,6 @@ theorem isRO_clearWO (k : Str) (props : List (Str × RS)) :
   | none => rfl
   | some p => simp [isRO, clearWO_ro]
 
-/-- all constraints absent (the `writeOnly` flag aside): the general path accepts every non-null value -/
-structure NoConstraint (s : RS) : Prop where
-  ty : s.ty = none
-  minLen : s.minLen = 0
-  max : s.max = none
-  required : s.required = []
-  addl : s.addl ≠ some false
-  props : s.props = []
-  items : s.items = none
-
-theorem visitFields_noConstraint (exro : Bool) (s : RS) (e : NoConstraint s) (kvs : List (Str × V)) :
-    visitFields exro s kvs = true := by
-  induction kvs with
-  | nil => simp [visitFields]
-  | cons x r ih =>
-    obtain ⟨k, v⟩ := x
-    rw [visitFields, ih]
-    simp only [e.props, lookup, Bool.and_true, bne_iff_ne, ne_eq]
-    exact e.addl
-
-theorem visit_noConstraint (exro : Bool) (s : RS) (e : NoConstraint s) (v : V) (hv : v.isNull = false) :
-    visit exro s v = true := by
-  cases v with
-  | null => simp [V.isNull] at hv
-  | bool b => rw [visit]; simp [e.ty, permits]
-  | int n => rw [visit]; simp [e.ty, e.max, permits, numTypeOK, maxOK]
-  | half n => rw [visit]; simp [e.ty, e.max, permits, numTypeOK, maxOK]
-  | str t => rw [visit]; simp [e.ty, e.minLen, permits]
-  | arr xs => rw [visit]; simp [e.ty, e.items, permits]
-  | obj kvs =>
-    rw [visit]
-    simp [e.ty, e.props, e.required, permits, roLoopOK, keys, requiredOK, visitFields_noConstraint exro s e kvs]
-
-theorem noConstraint_of_emptyLeaf (s : RS) (h : isEmptyLeaf s = true) : NoConstraint s :=
-  let e := emptyLeaf_of s h
-  ⟨e.ty, e.minLen, e.max, e.required, e.addl, e.props, e.items⟩
-
 theorem clearWO_ty (s : RS) : s.clearWO.ty = s.ty := by cases s; rfl
 theorem clearWO_nullable (s : RS) : s.clearWO.nullable = s.nullable := by cases s; rfl
 theorem clearWO_minLen (s : RS) : s.clearWO.minLen = s.minLen := by cases s; rfl
@@ -179,29 +370,67 @@ theorem clearWO_props (s : RS) : s.clearWO.props = clearWOProps s.props := by ca
 theorem clearWO_items (s : RS) : s.clearWO.items = clearWOOpt s.items := by cases s; rfl
 theorem clearWO_wo (s : RS) : s.clearWO.wo = false := by cases s; rfl
 
-theorem clearWOProps_eq_nil (props : List (Str × RS)) : clearWOProps props = [] ↔ props = [] := by
-  cases props with
-  | nil => simp [clearWOProps]
-  | cons x r => obtain ⟨k, p⟩ := x; simp [clearWOProps]
+theorem all_congr_mem {α : Type} (l : List α) (f g : α → Bool) (h : ∀ x ∈ l, f x = g x) : l.all f = l.all g := by
+  induction l with
+  | nil => rfl
+  | cons x r ih =>
+    simp only [List.all_cons]
+    rw [h x (by simp), ih (fun y hy => h y (by simp [hy]))]
 
-theorem clearWOOpt_eq_none (o : Option RS) : clearWOOpt o = none ↔ o = none := by
-  cases o <;> simp [clearWOOpt]
+theorem ownObj_clearWO (exro : Bool) (fs : List (Str × (RS → Bool))) (s : RS)
+    (ih : ∀ kf ∈ fs, ∀ s, kf.2 s.clearWO = kf.2 s) : ownObj exro fs s.clearWO = ownObj exro fs s := by
+  unfold ownObj
+  have h1 : roLoopOK exro s.clearWO.props (keys fs) = roLoopOK exro s.props (keys fs) := by
+    unfold roLoopOK
+    rw [clearWO_props, keys_clearWOProps]
+    apply List.all_congr rfl
+    intro k
+    rw [isRO_clearWO]
+  have h2 : requiredOK s.clearWO (keys fs) = requiredOK s (keys fs) := by
+    unfold requiredOK
+    rw [clearWO_required, clearWO_props]
+    apply List.all_congr rfl
+    intro k
+    rw [isRO_clearWO]
+  have h3 : fieldsOK s.clearWO fs = fieldsOK s fs := by
+    unfold fieldsOK
+    apply all_congr_mem
+    intro kf hkf
+    rw [clearWO_props, lookup_clearWOProps, clearWO_addl]
+    cases lookup kf.1 s.props with
+    | none => rfl
+    | some p => simp only [Option.map_some]; exact ih kf hkf p
+  rw [clearWO_ty, h1, h2, h3]
 
-theorem noConstraint_of_clearWO (s : RS) (e : NoConstraint s.clearWO) : NoConstraint s :=
-  ⟨by rw [← clearWO_ty]; exact e.ty, by rw [← clearWO_minLen]; exact e.minLen, by rw [← clearWO_max]; exact e.max,
-   by rw [← clearWO_required]; exact e.required, by rw [← clearWO_addl]; exact e.addl,
-   (clearWOProps_eq_nil _).mp (by rw [← clearWO_props]; exact e.props),
-   (clearWOOpt_eq_none _).mp (by rw [← clearWO_items]; exact e.items)⟩
-
-theorem isEmptyLeaf_clearWO_of (s : RS) (h : isEmptyLeaf s = true) : isEmptyLeaf s.clearWO = true := by
-  have e := emptyLeaf_of s h
-  unfold isEmptyLeaf at h ⊢
-  simp only [clearWO_ty, clearWO_nullable, clearWO_ro, clearWO_wo, clearWO_minLen, clearWO_max, clearWO_required,
-    clearWO_addl, clearWO_props, clearWO_items, e.props, e.items, clearWOProps, clearWOOpt]
-  simp only [e.props, e.items, Bool.and_eq_true] at h
-  simp only [Bool.and_eq_true]
-  obtain ⟨⟨⟨⟨⟨⟨⟨⟨⟨h1, h2⟩, h3⟩, _⟩, h5⟩, h6⟩, h7⟩, h8⟩, h9⟩, h10⟩ := h
-  exact ⟨⟨⟨⟨⟨⟨⟨⟨⟨h1, h2⟩, h3⟩, rfl⟩, h5⟩, h6⟩, h7⟩, h8⟩, h9⟩, h10⟩
+/-- the clause-by-clause twin does not see `writeOnly` flags, at any depth of the composition keywords,
+as long as the own-keyword verdict does not -/
+theorem satCB_clearWO (isNull : Bool) (own : RS → Bool) (h : ∀ s, own s.clearWO = own s) :
+    ∀ s, satCB isNull own s.clearWO = satCB isNull own s := by
+  apply rs_induct
+  intro t n r w ml mx props req a items nt oneOf anyOf allOf hnt h1 h2 h3
+  have hl : ∀ l : List RS, (∀ x ∈ l, satCB isNull own x.clearWO = satCB isNull own x) →
+      satCountB isNull own (clearWOList l) = satCountB isNull own l ∧
+      satAnyB isNull own (clearWOList l) = satAnyB isNull own l ∧
+      satAllB isNull own (clearWOList l) = satAllB isNull own l ∧ (clearWOList l).isEmpty = l.isEmpty := by
+    intro l hl
+    induction l with
+    | nil => exact ⟨rfl, rfl, rfl, rfl⟩
+    | cons x r ih =>
+      have ihr := ih (fun y hy => hl y (by simp [hy]))
+      unfold clearWOList satCountB satAnyB satAllB
+      rw [hl x (by simp), ihr.1, ihr.2.1, ihr.2.2.1]
+      exact ⟨rfl, rfl, rfl, rfl⟩
+  have hnot : satNotB isNull own (clearWOOpt nt) = satNotB isNull own nt := by
+    cases nt with
+    | none => rfl
+    | some x => unfold clearWOOpt satNotB; rw [hnt x rfl]
+  have c1 := hl oneOf h1
+  have c2 := hl anyOf h2
+  have c3 := hl allOf h3
+  have hown := h (RS.mk t n r w ml mx props req a items nt oneOf anyOf allOf)
+  unfold RS.clearWO at hown ⊢
+  unfold satCB
+  rw [hnot, c1.1, c2.2.1, c3.2.2.1, c1.2.2.2, c2.2.2.2, c3.2.2.2, hown]
 
 /-! ### urlencoded: model decoder vs the value the fields encode -/
 
@@ -456,31 +685,101 @@ theorem formPre_cons (k : Str) (p : RS) (r : List (Str × RS)) (h : formPre ((k,
       simp only [ha, Bool.false_eq_true, if_false] at h
       exact ⟨⟨rfl, fun h' => by simp at h'⟩, h⟩
 
-/-- the whole property list: outside the class FormFieldUnparsable the decoder's object is the object the
+theorem propPre_of_declOK (p : RS) (h : declOK p = true) : propPre p := by
+  unfold declOK at h
+  simp only [Bool.and_eq_true, Bool.not_eq_true', Bool.or_eq_true] at h
+  refine ⟨h.1.2, ?_⟩
+  intro ha
+  rcases h.2 with h2 | h2
+  · rw [ha] at h2; cases h2
+  · cases hi : p.items with
+    | none => simp [hi] at h2
+    | some it => exact ⟨it, rfl, by simpa [hi] using h2⟩
+
+theorem noComp_of_declOK (p : RS) (h : declOK p = true) : hasCompP p = false := by
+  unfold declOK at h
+  simp only [Bool.and_eq_true, Bool.not_eq_true'] at h
+  exact h.1.1
+
+theorem decodePropC_of_noComp (fields : List (Str × List Str)) (k : Str) (e : Option Enc) (p : RS)
+    (h : hasCompP p = false) : decodePropC fields k e p = decodeFormProp fields k p e := by
+  cases p with
+  | mk ty n r w ml mx props req a items nt oneOf anyOf allOf =>
+    unfold hasCompP at h
+    simp only [RS.allOf, RS.anyOf, RS.oneOf, RS.nt, Bool.not_eq_false', Bool.and_eq_true, List.isEmpty_iff,
+      Option.isNone_iff_eq_none] at h
+    obtain ⟨⟨⟨h1, h2⟩, h3⟩, h4⟩ := h
+    subst h1 h2 h3 h4
+    unfold decodePropC
+    simp
+
+theorem declOKC_cases (p : RS) (h : declOKC p = true) : hasCompP p = true ∨ propPre p := by
+  cases hc : hasCompP p with
+  | true => exact Or.inl rfl
+  | false =>
+    right
+    cases p with
+    | mk ty n r w ml mx props req a items nt oneOf anyOf allOf =>
+      unfold declOKC at h
+      unfold hasCompP at hc
+      simp only [RS.allOf, RS.anyOf, RS.oneOf, RS.nt, Bool.not_eq_false'] at hc
+      simp only [hc, Bool.not_true, Bool.false_eq_true, if_false] at h
+      exact propPre_of_declOK _ h
+
+/-- one declaration (with or without composition keywords in the property schema) -/
+theorem formDecl_agree (fields : List (Str × List Str)) (k : Str) (p : RS) (e : Option Enc)
+    (hs : specDecl fields k p e ≠ none) (hwf : propWF p e) (hpre : hasCompP p = true ∨ propPre p) :
+    specDecl fields k p e = some (dropNull (decodePropC fields k e p)) := by
+  unfold specDecl at hs ⊢
+  cases hc : hasCompP p with
+  | true =>
+    simp only [if_true]
+    cases decodePropC fields k e p with
+    | none => rfl
+    | some v => cases v <;> rfl
+  | false =>
+    simp only [hc, Bool.false_eq_true, if_false] at hs ⊢
+    rw [decodePropC_of_noComp fields k e p hc]
+    rcases hpre with h | h
+    · rw [hc] at h; cases h
+    · exact formProp_agree fields k p e hs hwf h
+
+/-- the whole declaration list: outside the class FormFieldUnparsable the decoder keeps exactly what the
 fields encode -/
 theorem formProps_agree (fields : List (Str × List Str)) (encs : List (Str × Enc)) (props : List (Str × RS))
     (hu : formUnparsable fields encs props = false)
-    (hwf : encsWF encs props = true) (hpre : formPre props = .ok) :
+    (hwf : encsWF encs props = true) (hpre : ∀ kp ∈ props, hasCompP kp.2 = true ∨ propPre kp.2) :
     specFormProps fields encs props = some (decodeFormProps fields encs props) := by
   induction props with
   | nil => simp [specFormProps, decodeFormProps]
   | cons x r ih =>
     obtain ⟨k, p⟩ := x
-    obtain ⟨hp, hr⟩ := formPre_cons k p r hpre
+    have hp := hpre (k, p) (by simp)
     simp only [formUnparsable, List.any_cons, Bool.or_eq_false_iff] at hu
     simp only [encsWF, List.all_cons, Bool.and_eq_true] at hwf
-    have ihr := ih hu.2 hwf.2 hr
-    have hs1 : specFormProp fields k p (lookup k encs) ≠ none := by
+    have ihr := ih hu.2 hwf.2 (fun kp hkp => hpre kp (by simp [hkp]))
+    have hs1 : specDecl fields k p (lookup k encs) ≠ none := by
       intro h; simp [h] at hu
     have hw1 : propWF p (lookup k encs) := by
       have := hwf.1
       simp only [Bool.or_eq_true, Bool.and_eq_true, decide_eq_true_eq] at this
       exact this
-    have hag := formProp_agree fields k p (lookup k encs) hs1 hw1 hp
+    have hag := formDecl_agree fields k p (lookup k encs) hs1 hw1 hp
     unfold specFormProps decodeFormProps
     rw [hag, show specFormProps fields encs r = some (decodeFormProps fields encs r) from ihr]
-    cases hd : decodeFormProp fields k p (lookup k encs) with
+    cases hd : decodePropC fields k (lookup k encs) p with
     | none => rfl
     | some v => cases v <;> rfl
+
+theorem propPre_of_formPre (props : List (Str × RS)) (h : formPre props = .ok) : ∀ kp ∈ props, propPre kp.2 := by
+  induction props with
+  | nil => intro kp hkp; cases hkp
+  | cons x r ih =>
+    obtain ⟨k, p⟩ := x
+    obtain ⟨hp, hr⟩ := formPre_cons k p r h
+    intro kp hkp
+    rcases List.mem_cons.mp hkp with rfl | hkp
+    · exact hp
+    · exact ih hr kp hkp
 
 end KinModel.Body
